@@ -1428,6 +1428,43 @@ func registerStubs(w *World) {
 	S["errors.Is"] = func(in *Interp, fn *ssa.Function, a []Value) Value {
 		return in.errorsIs(in.force(a[0]), in.force(a[1]))
 	}
+	// ---- fmt.Errorf ----
+	// The message is opaque text; what matters to callers is the chain: with a
+	// %w verb the result is a *fmt.wrapError whose Unwrap returns the wrapped
+	// error (the first error-typed operand), otherwise an opaque native error.
+	S["fmt.Errorf"] = func(in *Interp, fn *ssa.Function, a []Value) Value {
+		format, ok := in.concStr(a[0])
+		if !ok {
+			in.unsupported("fmt.Errorf with a symbolic format")
+		}
+		args, _ := a[1].(SliceV)
+		if strings.Contains(format, "%w") {
+			wt := in.W.LookupType("fmt", "wrapError")
+			if wt == nil {
+				in.unsupported("fmt.wrapError not loaded")
+			}
+			for i := 0; i < args.Len; i++ {
+				v := in.force(args.Arr.Elems[args.Off+i])
+				if v.T == nil || in.findMethod(v.T, "Error") == nil {
+					continue
+				}
+				sv := zeroValue(wt, in.org()).(*StructV)
+				sv.Fields[0] = in.opaqueStr()
+				sv.Fields[1] = v
+				cell := &Cell{V: sv, Org: in.org(), Nm: "fmt.wrapError"}
+				return IfaceV{T: types.NewPointer(wt), V: PtrV{cell}}
+			}
+		}
+		return in.nativeErr(errors.New("formatted error"))
+	}
+	S["(*fmt.wrapError).Unwrap"] = func(in *Interp, fn *ssa.Function, a []Value) Value {
+		p := a[0].(PtrV)
+		return p.R.Load().(*StructV).Fields[1]
+	}
+	S["(*fmt.wrapError).Error"] = func(in *Interp, fn *ssa.Function, a []Value) Value {
+		p := a[0].(PtrV)
+		return p.R.Load().(*StructV).Fields[0]
+	}
 	// ---- reflect ----
 	S["reflect.TypeOf"] = func(in *Interp, fn *ssa.Function, a []Value) Value {
 		rt := types.NewPointer(in.W.LookupType("reflect", "rtype"))
